@@ -34,6 +34,8 @@ def rowkey(row):
 
 
 class Session:
+    unbuilt = lambda self, row, e: _unbuilt(self, row, e)
+
     def __init__(self, run, seed):
         self.run = run
         self.builder = cc.Builder(seed)
@@ -50,7 +52,7 @@ class Session:
         try:
             iso = self.builder.build(row)
         except Exception as e:
-            return {"skip": f"build:{type(e).__name__}"}
+            return self.unbuilt(row, e)
         before = cc.project(iso)
         rt = cc.roundtrip(iso, row, self.tmp, again=(fmt == "json"))
         key, val = self.builder.focus(row)
@@ -73,6 +75,35 @@ class Session:
         return rec
 
 
+def _raised_in_library(e):
+    """Was the exception raised while pyGAPS code was running (any traceback frame in the tree under test)?"""
+    import traceback
+    from .common import SRC
+    return any(os.path.abspath(f.filename).startswith(os.path.abspath(SRC)) for f in traceback.extract_tb(e.__traceback__))
+
+
+def _unbuilt(self, row, e):
+    """The scenario table only contains isotherms the constructor's own rules admit. A fit that does not converge is
+    the one acceptable reason not to have an original; a refusal by the library is recorded and judged by the
+    specification (clause valid_isotherm_refused_at_construction); anything raised by the harness itself is machinery."""
+    from pygaps.utilities.exceptions import pgError
+    name = cc.exc_class(e)
+    if row["cls"] == "model" and row["layout"] in ("fitted", "fitted_int") and name == "CalculationError":
+        return {"skip": "build:CalculationError"}
+    if not isinstance(e, pgError) and not _raised_in_library(e):
+        raise MachineryError(f"harness failure while materialising { {k: row[k] for k in ROWKEYS} }: {type(e).__name__}: {e}") from e
+    key, val = self.builder.focus(row)
+    empty = cc.empty_content()
+    return {
+        "k": "judge", "fmt": row["fmt"], "kc": row["kc"], "vc": row["vc"], "target": row["target"], "sep": row["sep"], "layout": row["layout"],
+        "reg": row.get("reg", "none"), "regkeys": [],
+        "feat": cc.features(val, row.get("sep", "na")) if key is not None else NOFEAT,
+        "focus": cc._esc(key) if key is not None else "",
+        "stage": "build", "exc": name, "pg": isinstance(e, pgError), "before": empty, "after": empty,
+        "docs": {"first": "", "again": "", "string": ""}, "_msg": str(e)[:160],
+    }
+
+
 def strip(rec):
     return {k: v for k, v in rec.items() if not k.startswith("_")}
 
@@ -91,6 +122,8 @@ GROUPS = [
 def parts(rec, ans):
     """Independent parts of a rejected round trip: the refusal, or the failing clauses grouped by the part of
     the content they speak about. Each part gets its own signature."""
+    if rec["stage"] == "build":
+        return {"construction": f"valid_isotherm_refused_at_construction:{rec['exc']}"}
     if rec["stage"] != "done":
         return {"refusal": f"{rec['stage']}:{rec['exc']}"}
     f = set(ans["failing"])
@@ -171,19 +204,18 @@ def run_codec(pid, fmts, tier, seed):
             rec = ses.observe(r)
             nontrivial = not (r["cls"] == "base" and r["vc"] == "absent")
             if "skip" in rec:
-                # only a fit that does not converge is an acceptable reason not to have an original isotherm; anything
-                # else would silently empty the scenario table (vacuity guard: machinery failure, not a verdict)
-                if not (r["cls"] == "model" and r["layout"] in ("fitted", "fitted_int") and rec["skip"] == "build:CalculationError"):
-                    unbuilt.append((r, rec["skip"]))
                 run.add("not_judged_" + rec["skip"].replace(":", "_"))
                 continue
+            if rec["stage"] == "build":
+                unbuilt.append(r)
             run.count(rowkey(r), nontrivial=nontrivial)
             recs.append(rec)
             live.append(r)
-        if unbuilt:
-            r0, why = unbuilt[0]
-            raise MachineryError(f"{len(unbuilt)} scenario row(s) could not be materialised ({why}), e.g. { {k: r0[k] for k in ROWKEYS} }: "
-                                 "the constructors under test reject an isotherm the scenario table contains")
+        if rows and len(unbuilt) > 0.9 * len(rows):
+            r0 = unbuilt[0]
+            raise MachineryError(f"{len(unbuilt)} of {len(rows)} scenario rows could not be materialised, e.g. { {k: r0[k] for k in ROWKEYS} }: "
+                                 "the environment is broken, not one configuration class")
+        run.set(rows_refused_at_construction=len(unbuilt))
         # ---- 4. TLC judges
         answers = judge_batch(recs)
         # a refusal is only excused by an out-of-domain focus entry if that entry causes it: rows whose refusal
@@ -349,6 +381,9 @@ def cause_sig(r, ans, sym, cause, rec):
     sig = {"site": "isotherm_to/from_" + r["fmt"], "fmt": r["fmt"], "verdict": ans["verdict"], "symptom": sym,
            "cause": "+".join(names) if names else "unattributed:" + r["cls"]}
     sig.update(cause)
+    if rec["stage"] != "done":
+        sig["clause"] = {"build": "valid_isotherm_refused_at_construction", "import": "import_refused", "export": "export_refused"}[rec["stage"]]
+        sig["exception"] = rec["exc"]
     if focus:
         sig.update(focus_part(r, ans))
     if sym == "identifier" and rec["before"]["cls"] == "point":
@@ -360,7 +395,7 @@ def detail(r, rec, ans):
     d = {"row": dict({k: r[k] for k in ROWKEYS}, n=r.get("n", 0)), "stage": rec["stage"], "exception": rec["exc"], "message": rec.get("_msg", ""),
          "failing_clauses": sorted(ans["failing"]), "allowed": sorted(ans["allowed"]), "verdict": ans["verdict"],
          "focus_observed": ans["focus"], "impl_predicts": ans["impl"], "id_equal": ans["id_equal"], "id_obliged": ans["id_obliged"]}
-    if rec["before"]["cls"] == "point":
+    if rec["before"]["cls"] == "point" and rec["stage"] == "done":
         d["dtypes"] = {"before": rec["before"]["data"]["dtypes"], "after": rec["after"]["data"]["dtypes"]}
         d["branch"] = {"before": rec["before"]["data"]["branch"], "after": rec["after"]["data"]["branch"]}
     if rec["focus"]:
